@@ -155,12 +155,13 @@ func (n *verifC08Net) ListenUDP(_ string, a *net.UDPAddr) (transport.UDPConn, er
 }
 
 type verifC08World struct {
-	a       *Agent
-	mu      sync.Mutex
-	states  []ConnectionState
-	net     *verifC08Net
-	conns   []*verifBlockConn
-	onState func(ConnectionState)
+	a         *Agent
+	mu        sync.Mutex
+	states    []ConnectionState
+	net       *verifC08Net
+	conns     []*verifBlockConn
+	onState   func(ConnectionState)
+	inHandler atomic.Int32
 }
 
 // verifC08New mirrors createAgentBase (struct literal) and then runs the real
@@ -208,6 +209,8 @@ func verifC08New(withIface bool) *verifC08World {
 	}
 	w.a = a
 	verifAssert(a.OnConnectionStateChange(func(s ConnectionState) {
+		w.inHandler.Add(1)
+		verifYield() // a handler that takes its time
 		w.mu.Lock()
 		w.states = append(w.states, s)
 		f := w.onState
@@ -215,6 +218,7 @@ func verifC08New(withIface bool) *verifC08World {
 		if f != nil {
 			f(s)
 		}
+		w.inHandler.Add(-1)
 	}) == nil, "handler-registered")
 
 	return w
@@ -248,13 +252,34 @@ func (w *verifC08World) addRemote() {
 	}
 }
 
+// closedNow: what must hold the moment ANY Close/GracefulClose call returns
+// (also a second, concurrent one): the teardown is complete.
+func (w *verifC08World) closedNow() {
+	verifAssert(w.a.loop.Err() != nil, "when-Close-returns-the-loop-is-closed")
+	for _, c := range w.conns {
+		verifAssert(c.closes.Load() >= 1, "when-Close-returns-every-started-socket-is-closed")
+	}
+}
+
+// gracefulNow: the moment GracefulClose returns no handler is running and
+// Closed has been delivered as the last state.
+func (w *verifC08World) gracefulNow() {
+	verifAssert(w.inHandler.Load() == 0, "when-GracefulClose-returns-no-handler-is-running")
+	w.mu.Lock()
+	n := len(w.states)
+	verifAssert(n >= 1 && w.states[n-1] == ConnectionStateClosed, "when-GracefulClose-returns-Closed-has-been-delivered")
+	w.mu.Unlock()
+}
+
 func verifC08Closed(err error) bool { return errors.Is(err, taskloop.ErrClosed) }
 
 // after: Close has returned and every harness goroutine has ended.
 func (w *verifC08World) after() {
 	a := w.a
 	verifAssert(a.Close() == nil, "repeated-Close-returns-nil")
+	w.closedNow()
 	verifAssert(a.GracefulClose() == nil, "GracefulClose-after-Close-returns-nil")
+	w.gracefulNow()
 	// later API calls return promptly, without effect, reporting closure
 	_, err := a.GetLocalCandidates()
 	verifAssert(verifC08Closed(err), "GetLocalCandidates-after-Close-reports-closed")
@@ -310,8 +335,11 @@ func (w *verifC08World) closeIt() {
 	}
 	if verifChoice(2) == 0 {
 		verifAssert(w.a.Close() == nil, "Close-returns-nil")
+		w.closedNow()
 	} else {
 		verifAssert(w.a.GracefulClose() == nil, "GracefulClose-returns-nil")
+		w.closedNow()
+		w.gracefulNow()
 	}
 }
 
@@ -445,6 +473,7 @@ func verifC08CloseInCallback() {
 	w.onState = func(s ConnectionState) {
 		if s == ConnectionStateChecking {
 			verifAssert(a.Close() == nil, "Close-inside-callback-returns-nil")
+			w.closedNow()
 			once.Do(func() { close(done) })
 		}
 	}
@@ -464,8 +493,13 @@ func verifC08CloseConcurrent() {
 	w.addLocal(1000, false)
 	var wg sync.WaitGroup
 	wg.Add(2)
-	go func() { defer wg.Done(); verifAssert(a.Close() == nil, "concurrent-Close-returns-nil") }()
-	go func() { defer wg.Done(); verifAssert(a.GracefulClose() == nil, "concurrent-GracefulClose-returns-nil") }()
+	go func() { defer wg.Done(); verifAssert(a.Close() == nil, "concurrent-Close-returns-nil"); w.closedNow() }()
+	go func() {
+		defer wg.Done()
+		verifAssert(a.GracefulClose() == nil, "concurrent-GracefulClose-returns-nil")
+		w.closedNow()
+		w.gracefulNow()
+	}()
 	w.closeIt()
 	verifReach("closed")
 	wg.Wait()
